@@ -74,7 +74,7 @@ HAND = [
     # the same user expression substituted into several template slots / several replace calls:
     # every occurrence must get its own nodes (literals included)
     ('share_chain', "def f(a, b, c):\n    x = a < 5 < b\n    y = 0 <= a + 1 < b * 2 <= c[0] < 100 != a\n    if a < 'm' < b or not 1 < c.v <= 2.5:\n        x = a is None is not b\n    while 0 < a < (10, 2)[0]:\n        a -= 1\n    assert a < -1 < b, 'msg'\n    z = [i for i in c if 0 < i < 9]\n    g = lambda q: 1 < q < 3\n    return x, y, z, g, a < f(1, k=2) < b, a in (1, 2) in c\n"),
-    ('share_aug', "def f(a, b, c):\n    b[0] += 1\n    b[-1] -= a\n    c[0].v += 2\n    c[0].v[1] *= 3\n    b['k'][2] = b['k'][2] + 1\n    c[1].l.append(a)\n    c[2].m[3].append(4)\n    x = c[4].l.pop()\n    for i in a:\n        b[0] += i\n        c[0].v[1] **= 2\n    return b, c, x\n"),
+    ('share_aug', "def f(a, b, c):\n    b[0] += 1\n    b[-1] -= a\n    c[0].v += 2\n    c[0].v[1] *= 3\n    b['k'][2] = b['k'][2] + 1\n    c[1].l.append(a)\n    c[2].m[3].append(4)\n    x = c.q.l.pop()\n    for i in a:\n        b[0] += i\n        c[0].v[1] **= 2\n    return b, c, x\n"),
     ('share_call', "def f(a, b, c):\n    x = g(1, a, *b[0], k=2, **c[1])\n    y = a.h(1)(2)[3](k=(4, 5))\n    if g(0) < g(1) < g(2):\n        x = y if g(3) else g(4)\n    for i in g(5, 6):\n        if i < 7 < x:\n            continue\n        if 8 > i > 9:\n            break\n        y = i\n    return x and 1 < y < 2 or g(10)\n"),
     ('printcall', 'def f(a, b, c):\n    print(a, len(b), range(c), sep="")\n    return int(a) + float(b) + abs(c)\n'),
 ]
@@ -994,9 +994,14 @@ def _check(run, tmpdir):
         tie_msg = str(e)
         run.note(tie_msg)
     # 2. proofs
+    import time
+    t0 = time.time()
     make_ok = True
     if tie_msg is None:
         make_ok, _ = vlib.standard_proof_step(run, ['Tmpl/ReplaceCheck.vo'])
+    phases = {'proofs_s': round(time.time() - t0, 1)}
+    run.extra['phases'] = phases
+    t0 = time.time()
     # 3/4 on the implementation
     mon = Monitor()
     mon.install()
@@ -1010,6 +1015,8 @@ def _check(run, tmpdir):
     finally:
         mon.uninstall()
 
+    phases['pipeline_and_synthetic_s'] = round(time.time() - t0, 1)
+    t0 = time.time()
     # dynamic templates (computed strings) get the static discipline at run time: all template strings seen
     seen_templates = {}
     for rec in pipeline_calls:
@@ -1032,7 +1039,7 @@ def _check(run, tmpdir):
         else:
             rest.append(rec)
     rnd.shuffle(rest)
-    budget = 500 if quick else 3000
+    budget = 320 if quick else 3000
     sel = sel[:budget] + rest[:max(0, budget - len(sel))]
     icases = []
     imeta = {}
@@ -1092,6 +1099,7 @@ def _check(run, tmpdir):
                                                       'templates.replace (synthetic)': sum(1 for r in imeta.values() if any(r is x for x in syn_calls)),
                                                       'ContextAdjuster': len(acases), 'copy_clean': len(pcases),
                                                       'ctx_ok vs CPython validator': len(ccases)}
+    phases['correspondence_s'] = round(time.time() - t0, 1)
     for c in ccases:
         if c[3] != c[4]:
             corr_bad.append('ctx spec: the harness walk disagrees with CPython validator (%s) on %s' % (c[3], c[2]))
